@@ -18,9 +18,13 @@ BASE = (('connect', 0, True, 5, 4), ('connack', 0, 0, False), ('setwin', 0, 3),
 
 
 def base_world(profile='pubsub', mode='sync'):
+    from ..explorer import PrefixBroken
     w = World(dict(profile=profile, mode=mode))
     for ev in BASE:
-        w.apply(ev)
+        try:
+            w.apply(ev)
+        except Exception as e:      # noqa
+            raise PrefixBroken('base history: scripted event %r failed with %s: %s' % (ev, type(e).__name__, e))
     w.base_mark = len(w.obs)
     return w
 
@@ -96,7 +100,14 @@ def expected_actions(pkts):
 
 
 def check_reference(ctx, name, pkts, ref_obs):
-    exp = expected_actions(pkts)
+    try:
+        exp = expected_actions(pkts)
+    except Exception as e:      # noqa -- the base history itself went wrong on this tree
+        ctx.violation({'kind': 'framing', 'signature': 'base-history-misbehaves',
+                       'detail': 'the base history (whole packets only) does not leave the expected requests pending: %s: %s' % (type(e).__name__, e),
+                       'history': [['stream', name], ['cuts', []]], 'scenario': {'name': 'ref', 'stream': name}})
+        return
+
     if ref_obs != exp:
         i = next((x for x in range(min(len(exp), len(ref_obs))) if exp[x] != ref_obs[x]), min(len(exp), len(ref_obs)))
         ctx.violation({'kind': 'framing', 'signature': 'whole-packet-delivery-wrong/%s' % name,
@@ -364,6 +375,15 @@ def cross_connection(ctx):
 
 
 def run(ctx):
+    from ..explorer import PrefixBroken
+    try:
+        return _run(ctx)
+    except PrefixBroken as e:
+        ctx.violation({'kind': 'framing', 'signature': 'base-history-misbehaves', 'detail': str(e),
+                       'history': [['stream', 'base'], ['cuts', []]], 'scenario': {'name': 'ref', 'stream': 'all-types'}})
+
+
+def _run(ctx):
     ctx.rule = ('all 2^(n-1) compositions of streams holding every broker packet type, by dynamic programming over cut '
                 'positions on the real dataReceived (S_j = distinct (state, actions) after bytes[0:j) in any chunking); '
                 'brute force over all compositions of short streams; 1/2/3-cut placements and byte-at-a-time header '
